@@ -23,6 +23,7 @@ const vfMinStream = 18
 
 type vfStub struct{}
 
+var vfStubFixed bool    // no short reads (fewer paths)
 var vfStreams [][]byte // produced streams, index = tag
 var vfOrigs [][]byte
 
@@ -96,7 +97,7 @@ func (r *vfStubReader) Read(p []byte) (int, error) {
 		return 0, io.EOF
 	}
 	avail := r.out[r.pos:]
-	if r.pos == 0 && len(avail) > 1 && len(p) >= len(avail) && nd.Bool("decompressor-delivers-a-short-first-read") {
+	if !vfStubFixed && r.pos == 0 && len(avail) > 1 && len(p) >= len(avail) && nd.Bool("decompressor-delivers-a-short-first-read") {
 		// io.Reader: a Read may return fewer bytes than asked for without an error (the real
 		// decompressor does so at each of its 64 KiB block boundaries); only io.EOF ends the stream
 		avail = avail[:len(avail)/2]
@@ -111,6 +112,7 @@ func vfInstallStub() {
 	compressor.UnRegister(redis.Compression_SNAPPY.String())
 	compressor.Register(redis.Compression_SNAPPY.String(), vfStub{})
 	vfStreams, vfOrigs = nil, nil
+	vfStubFixed = false
 }
 
 func vfCompressCfg(enable bool, threshold uint32) *config {
@@ -275,6 +277,49 @@ func VfC13_ReadBack() {
 	nd.Assert(vfBytesEq(rd.Response().Text, orig), "a value written through the proxy reads back byte-identical")
 	if !vfBytesEq(stored, orig) {
 		nd.Cover("was-compressed")
+	}
+}
+
+// VfC13_HashReadBack: a hash write with two field/value pairs (HMSET, HSET) whose values have
+// independent lengths around the threshold passes the filter once or twice (the write was
+// redirected); each value then reads back through the filter (HGET, HMGET) byte-identical -
+// whichever of the two was compressed on the first pass.
+func VfC13_HashReadBack() {
+	vfInstallStub()
+	vfStubFixed = true
+	threshold := uint32([]int{8, 20, 30}[nd.Concrete(nd.Choice("threshold", 3))])
+	cfg := vfStartCfg()
+	f := newCompressFilter(cfg)
+	vfReconfigure(cfg, true, threshold)
+	cmd := []string{"hmset", "hset"}[nd.Concrete(nd.Choice("cmd", 2))]
+	var vals, origs [2][]byte
+	// one short value (never worth compressing) and one long value, in either order
+	longFirst := nd.Bool("long-value-first")
+	for i := 0; i < 2; i++ {
+		vlen := 3
+		if (i == 0) == longFirst {
+			vlen = 31
+		}
+		v := nd.Bytes("v", vlen)
+		nd.Assume(!(v[0] == '(' && v[1] == 'P' && v[2] == '$'))
+		vals[i], origs[i] = v, append([]byte(nil), v...)
+	}
+	wr := newSimpleRequest(newArray(*newBulkString(cmd), *newBulkString("h"), *newBulkString("f1"), *newBulkBytes(vals[0]), *newBulkString("f2"), *newBulkBytes(vals[1])))
+	nd.PanicLabel("compress-filter")
+	for p := 0; p < 2; p++ { // the write is redirected once: it passes the filter twice
+		f.Do(cmd, wr)
+	}
+	b := wr.Body().Array
+	nd.Assert(len(b) == 6 && vfBytesEq(b[1].Text, []byte("h")) && vfBytesEq(b[2].Text, []byte("f1")) && vfBytesEq(b[4].Text, []byte("f2")), "keys and fields are never changed")
+	stored := [2][]byte{append([]byte(nil), b[3].Text...), append([]byte(nil), b[5].Text...)}
+	for i := 0; i < 2; i++ {
+		rd := newSimpleRequest(newArray(*newBulkString("hget"), *newBulkString("h"), *newBulkString([]string{"f1", "f2"}[i])))
+		f.Do("hget", rd)
+		rd.SetResponse(newBulkBytes(append([]byte(nil), stored[i]...)))
+		nd.Assert(vfBytesEq(rd.Response().Text, origs[i]), "every value of a multi-pair hash write reads back byte-identical, also when the write passed the filter twice")
+	}
+	if !vfBytesEq(stored[1], origs[1]) && vfBytesEq(stored[0], origs[0]) {
+		nd.Cover("only-the-second-was-compressed")
 	}
 }
 
